@@ -473,6 +473,10 @@ class MonC09(Monitor):
                     after = self.deep_state(seq)
                     if after != before:
                         diff = sorted(k for k in before if before[k] != after[k])
+                        # (a channel left declared also leaves the phase references of its basis: not a
+                        # separate residue)
+                        if "chans" in diff and "refs" in diff:
+                            diff.remove("refs")
                         fails.append(self.F("failed-call-not-atomic",
                                             f"{name} raised {type(e).__name__} but changed {diff}",
                                             op=name.split("(")[0], err=type(e).__name__, what=",".join(diff), probe=True))
